@@ -287,6 +287,15 @@ func (g *G) Service(kind int) knxnet.ServicePackable {
 		r := &knxnet.DescriptionRes{}
 		r.DeviceHardware = g.DevInfo()
 		r.SupportedServices = g.SvcDIB()
+		if g.Oversize && g.R.Intn(3) == 0 {
+			// blocks a decoder kept verbatim (the encoder writes the two mandatory blocks only: what Size
+			// reports and what Pack writes must still agree)
+			for k := 1 + g.R.Intn(2); k > 0; k-- {
+				r.UnknownBlocks = append(r.UnknownBlocks, knxnet.UnknownDescriptionBlock{
+					Type: knxnet.DescriptionType(g.Pick(3, 4, 5, 6, 8, 0xfe)), Data: g.Bytes(g.Pick(0, 1, 4, 9))})
+			}
+			g.count("svc.DescrRes.with-unknown-blocks")
+		}
 		return r
 	case 4:
 		g.count("svc.ConnReq")
